@@ -114,15 +114,30 @@ def run(ctx, chk, tier):
                     crossing_rules(ctx, chk, tag, e, inloop[-1], A_, B_, t2d, Tt)
                 if not is_cross and not seen_fb:
                     seen_fb = True
-                    j = e["index"]
-                    x2d = App("getitem", (X, Tup([FULL, Const(None)])))
-                    am = App("argmin", (App("abs", (sub(y2d, t2d),)),), [("axis", Const(0))])
-                    want = App("getitem", (App("getitem", (x2d, am)), Tup([j, Const(0)])))
-                    guard_ok = any(t_ and isinstance(c, App) and c.fn == "eq0" and "len(" in c.key and "list" in c.key for c, t_ in o.pc)
-                    if same(e["value"], want) and guard_ok:
-                        chk.hold("R17.4", tag + ":fallback", "no crossing recorded -> x[argmin |y - t_j|]")
-                    else:
-                        chk.violation("R17.4", Q, tag + ":fallback", "%s under %s" % (show(e["value"], 200), pc_text(o)[:120]), "%s iff len(s[j]) == 0" % show(want, 200), ctx.where(Q))
+                    check_fallback(ctx, chk, tag, e["value"], e["index"], o, y2d, t2d)
+            # comprehension form: the fallback is an element of the returned list
+            if not seen_fb:
+                from ..evalr import Lst
+                v = o.value
+                if type(v).__name__ == "ListElem":
+                    v = v.lst
+                if isinstance(v, Lst) and getattr(v, "comp", None):
+                    loops, conds, elt = v.comp
+                    fb = [a for a in atoms_of(elt if hasattr(elt, "key") else Const(0)) if isinstance(a, App) and a.fn == "getitem" and "argmin(" in a.key]
+                    if fb and isinstance(loops[0][1], Tup):
+                        seen_fb = True
+                        j = loops[0][1].items[0]
+                        inner = fb[0]
+                        wrapped = isinstance(elt, Tup) and len(elt.items) == 1 and elt.items[0] == inner
+                        if not wrapped:
+                            chk.unknown("R17.1", "%s: fallback element %s is not a one-element list of a scalar" % (tag, show(elt, 120)))
+                        else:
+                            r = rank(inner, env_rank)
+                            if r == 0:
+                                chk.hold("R17.1", "%s:fallback-rank" % tag, "fallback entry is a one-element list of a rank-0 value")
+                            else:
+                                chk.violation("R17.1", Q, "%s:fallback-rank" % tag, "rank %s value %s" % (r, show(inner, 160)), "rank 0", ctx.where(Q))
+                            check_fallback(ctx, chk, tag, inner, j, o, y2d, t2d)
             if trank == 0 and o is rets[0]:
                 v = o.value
                 txt = v.key if hasattr(v, "key") else repr(v)
@@ -132,6 +147,31 @@ def run(ctx, chk, tier):
             chk.unknown("R17.4", "%s: fallback not observed" % tag)
     threshold_at_metric(ctx, chk)
     chk.floor("R17.2", 2, "crossing predicates for array and scalar targets")
+
+
+def check_fallback(ctx, chk, tag, value, j, o, y2d, t2d):
+    x2d = App("getitem", (X, Tup([FULL, Const(None)])))
+    am = App("argmin", (App("abs", (sub(y2d, t2d),)),), [("axis", Const(0))])
+    want = App("getitem", (App("getitem", (x2d, am)), Tup([j, Const(0)])))
+
+    def emptiness(c, taken):
+        if isinstance(c, App) and c.fn == "not":
+            return emptiness(c.args[0], not taken)
+        k = c.key
+        if "list" not in k and "elem(" not in k:
+            return False
+        if isinstance(c, App) and c.fn == "eq0" and "len(" in k:
+            return taken
+        if isinstance(c, App) and c.fn == "truthy":
+            return not taken
+        if isinstance(c, App) and c.fn == "lt0" and "len(" in k:      # len(z) > 0
+            return not taken
+        return False
+    guard_ok = any(emptiness(c, t_) for c, t_ in o.pc)
+    if same(value, want) and guard_ok:
+        chk.hold("R17.4", tag + ":fallback", "no crossing recorded -> x[argmin |y - t_j|]")
+    else:
+        chk.violation("R17.4", Q, tag + ":fallback", "%s under %s" % (show(value, 200), pc_text(o)[:120]), "%s iff the solution list of target j is empty" % show(want, 200), ctx.where(Q))
 
 
 def crossing_rules(ctx, chk, tag, e, loop, A_, B_, t2d, Tt):
